@@ -258,7 +258,10 @@ def classify_stop(resid, L, bound, jumps):
         return "jump"
     if L >= 50.0 - 1e-3 or L <= bound + 1e-3:
         return "bound"
-    if sq(L) <= sq(L - h) and sq(L) <= sq(L + h):
+    # (a numerically flat stretch counts: far from the wells the squared residual is 1 to the last digit and the
+    # minimiser has nothing to tell one width from the next)
+    flat = 1e-12 * max(1.0, sq(L)) if math.isfinite(sq(L)) else 0.0
+    if sq(L) <= sq(L - h) + flat and sq(L) <= sq(L + h) + flat:
         return "extremum"
     return "elsewhere"
 
